@@ -1984,6 +1984,9 @@ impl Parser {
                     let ty = Self::r#type(child)?;
                     type_vec.push(ty);
                 }
+                Rule::open_ended_type => anyhow::bail!(
+                    "a list type with fixed elements cannot end in an open-ended `T...` part"
+                ),
                 other_rule => unreachable!("{other_rule:?}"),
             }
         }
